@@ -3,17 +3,23 @@ package harness
 import (
 	"context"
 	"fmt"
+	"io"
 	"time"
+
+	golangGrpc "google.golang.org/grpc"
+	"google.golang.org/grpc/metadata"
 
 	"github.com/DataDog/datadog-go/v5/statsd"
 	gometrics "github.com/rcrowley/go-metrics"
 
 	"github.com/platinummonkey/go-concurrency-limits/core"
+	clgrpc "github.com/platinummonkey/go-concurrency-limits/grpc"
 	"github.com/platinummonkey/go-concurrency-limits/limit"
 	"github.com/platinummonkey/go-concurrency-limits/limiter"
 	"github.com/platinummonkey/go-concurrency-limits/measurements"
 	ddreg "github.com/platinummonkey/go-concurrency-limits/metric_registry/datadog"
 	gmreg "github.com/platinummonkey/go-concurrency-limits/metric_registry/gometrics"
+	"github.com/platinummonkey/go-concurrency-limits/patterns/pool"
 	"github.com/platinummonkey/go-concurrency-limits/strategy"
 	"github.com/platinummonkey/go-concurrency-limits/strategy/matchers"
 )
@@ -25,7 +31,7 @@ import (
 func init() {
 	Register(&Prop{
 		ID: "C17", Bubble: true, Run: runC17, QuickRuns: 250, Race: true,
-		Rule: "one run = one shared instance group (limit algorithms incl. wrappers; strategies and partitions; limiters and listeners; measurements; go-metrics / datadog registries) and 2..4 tasks each calling 3..12 seeded exported methods (samples, accessors, String, listener / partition / metric registration, Start / Stop) under one seeded schedule in a -race build; the scheduler's and hooks' own synchronisation is excluded from the detector (runtime.RaceDisable, go:norace); " +
+		Rule: "one run = one shared instance group (limit algorithms incl. wrappers; strategies and partitions; limiters and listeners; measurements; pools; gRPC interceptors and the stream wrapper over real limiters; go-metrics / datadog registries; gauge suppliers polled like a registry would) and 2..4 tasks each calling 3..12 seeded exported methods (samples, accessors, String, listener / partition / metric registration, Start / Stop) under one seeded schedule in a -race build; the scheduler's and hooks' own synchronisation is excluded from the detector (runtime.RaceDisable, go:norace); " +
 			"oracle: runtime.RaceErrors() must not increase during the run and the runtime must not crash; non-trivial = at least two tasks executed a mutating method on the shared instance; distinct = distinct (group, method multiset, schedule) hashes",
 		Real:       []string{"limit.*", "strategy.*", "limiter.*", "measurements.*", "metric_registry/gometrics", "metric_registry/datadog", "Go race detector (ThreadSanitizer runtime of go1.26.8)"},
 		Stubs:      []string{"lock-free no-op metric registry (so that the stub adds no happens-before edges)", "in-memory statsd writer"},
@@ -59,6 +65,25 @@ func (q quietRegistry) RegisterGauge(ID string, supplier core.MetricSupplier, ta
 func (quietRegistry) Start() {}
 func (quietRegistry) Stop()  {}
 
+// statelessStream: a grpc.ServerStream double without any mutable state (so it cannot race itself).
+type statelessStream struct{}
+
+func (statelessStream) SetHeader(metadata.MD) error  { return nil }
+func (statelessStream) SendHeader(metadata.MD) error { return nil }
+func (statelessStream) SetTrailer(metadata.MD)       {}
+func (statelessStream) Context() context.Context     { return bg }
+func (statelessStream) SendMsg(m interface{}) error {
+	globalHook(kYield, "stream.SendMsg")
+	return nil
+}
+func (statelessStream) RecvMsg(m interface{}) error {
+	globalHook(kYield, "stream.RecvMsg")
+	if x, ok := m.(int); ok && x%5 == 0 {
+		return io.EOF
+	}
+	return nil
+}
+
 type c17op struct {
 	name     string
 	mutating bool
@@ -67,7 +92,7 @@ type c17op struct {
 
 func runC17(r *Run) {
 	t := r.T
-	group := t.Intn(5, "group")
+	group := t.Intn(7, "group")
 	var ops []c17op
 	var desc string
 	var suppliers []core.MetricSupplier
@@ -272,6 +297,76 @@ func runC17(r *Run) {
 					_ = st.String()
 				}
 			}},
+		}
+	case 5: // pools
+		var acquire func(ctx context.Context) (core.Listener, bool)
+		ord := []pool.Ordering{pool.OrderingRandom, pool.OrderingFIFO, pool.OrderingLIFO}[t.Intn(3, "pool-ordering")]
+		if t.Intn(2, "pool-kind") == 0 {
+			fp, err := pool.NewFixedPool("p", ord, 1+t.Intn(2, "pool-limit"), 10, time.Second, time.Second, 0, 3, 5*ms, nopLogger{}, qr)
+			if err != nil {
+				r.Fail("harness", "pool", "%v", err)
+				return
+			}
+			acquire = fp.Acquire
+			desc = fmt.Sprintf("pool FixedPool ordering=%d", ord)
+			ops = append(ops, c17op{"Limit", false, func(tk *Task, x int) { _ = fp.Limit(); _ = fp.Ordering() }})
+		} else {
+			st := strategy.NewPreciseStrategyWithMetricRegistry(1+t.Intn(2, "pool-limit"), qr)
+			dl, _ := limiter.NewDefaultLimiter(limit.NewFixedLimit("f", 2, qr), 1, 1, 0, 10, st, nopLogger{}, qr)
+			gp, err := pool.NewPool(dl, ord, 3, 5*ms, nopLogger{}, qr)
+			if err != nil {
+				r.Fail("harness", "pool", "%v", err)
+				return
+			}
+			acquire = gp.Acquire
+			desc = fmt.Sprintf("pool Pool ordering=%d", ord)
+			ops = append(ops, c17op{"delegate.String", false, func(tk *Task, x int) { _ = dl.String() }})
+		}
+		ops = append(ops, c17op{"Acquire+complete", true, func(tk *Task, x int) {
+			ctx, cancel := context.WithTimeout(bg, 15*ms)
+			defer cancel()
+			if ls, ok := acquire(ctx); ok {
+				tk.Sleep(time.Duration(x%3) * ms)
+				Complete(ls, x%3)
+			}
+		}})
+	case 6: // gRPC interceptors over real limiters, one instance shared by all tasks
+		mk := func() *limiter.DefaultLimiter {
+			st := strategy.NewSimpleStrategyWithMetricRegistry(2, qr)
+			dl, _ := limiter.NewDefaultLimiter(limit.NewAIMDLimit("aimd", 2, 0.9, 1, qr), 1, 1, 0, 10, st, nopLogger{}, qr)
+			return dl
+		}
+		srv := clgrpc.UnaryServerInterceptor(clgrpc.WithLimiter(mk()))
+		cli := clgrpc.UnaryClientInterceptor(clgrpc.WithLimiter(mk()))
+		ic := clgrpc.StreamServerInterceptor(clgrpc.WithStreamRecvLimiter(mk()), clgrpc.WithStreamSendLimiter(mk()))
+		var wrapped golangGrpc.ServerStream
+		ic(nil, statelessStream{}, &golangGrpc.StreamServerInfo{FullMethod: "/s/m"}, func(srv interface{}, ss golangGrpc.ServerStream) error {
+			wrapped = ss
+			return nil
+		})
+		desc = "grpc interceptors"
+		someErr := fmt.Errorf("boom")
+		ops = []c17op{
+			{"unary-server", true, func(tk *Task, x int) {
+				_, _ = srv(bg, x, &golangGrpc.UnaryServerInfo{FullMethod: "/s/m"}, func(ctx context.Context, req interface{}) (interface{}, error) {
+					globalHook(kYield, "handler")
+					if x%4 == 0 {
+						return nil, someErr
+					}
+					return x, nil
+				})
+			}},
+			{"unary-client", true, func(tk *Task, x int) {
+				_ = cli(bg, "/s/m", x, nil, nil, func(ctx context.Context, method string, req, reply interface{}, cc *golangGrpc.ClientConn, opts ...golangGrpc.CallOption) error {
+					globalHook(kYield, "invoker")
+					if x%4 == 0 {
+						return someErr
+					}
+					return nil
+				})
+			}},
+			{"stream-recv", true, func(tk *Task, x int) { _ = wrapped.RecvMsg(x) }},
+			{"stream-send", true, func(tk *Task, x int) { _ = wrapped.SendMsg(x) }},
 		}
 	default: // registries
 		var reg core.MetricRegistry
